@@ -10,6 +10,7 @@ import (
 	"github.com/Eyevinn/mp4ff/hevc"
 	"pgregory.net/rapid"
 
+	"verif/internal/esgen"
 	"verif/internal/harness"
 	"verif/internal/nalgen"
 )
@@ -34,6 +35,29 @@ func hevcExpectedSPS(tr *nalgen.HEVCSPSTree) hevc.SPS {
 		}
 	}
 	return want
+}
+
+// hevcLibRPS converts the standard's variables into the representation of hevc.ShortTermRPS (DeltaPocSX[i]
+// holds delta_poc_sX_minus1[i] + 1, i.e. the distance to the previous entry).
+func hevcLibRPS(v *nalgen.HEVCRPSVars) hevc.ShortTermRPS {
+	r := hevc.ShortTermRPS{
+		NumNegativePics: byte(v.NumNegativePics()),
+		NumPositivePics: byte(v.NumPositivePics()),
+		NumDeltaPocs:    byte(v.NumDeltaPocs()),
+	}
+	prev := int64(0)
+	for i, d := range v.DeltaPocS0 {
+		r.DeltaPocS0 = append(r.DeltaPocS0, uint32(prev-d))
+		r.UsedByCurrPicS0 = append(r.UsedByCurrPicS0, v.UsedS0[i])
+		prev = d
+	}
+	prev = 0
+	for i, d := range v.DeltaPocS1 {
+		r.DeltaPocS1 = append(r.DeltaPocS1, uint32(d-prev))
+		r.UsedByCurrPicS1 = append(r.UsedByCurrPicS1, v.UsedS1[i])
+		prev = d
+	}
+	return r
 }
 
 // hevcCompareSPS compares got with the tree. ctx goes into the message.
@@ -88,7 +112,7 @@ func hevcDiffValueTop(prefix string, want, got interface{}) (string, string, str
 // with horizontal coordinates SubWidthC * conf_win_left_offset .. pic_width_in_luma_samples −
 // ( SubWidthC * conf_win_right_offset + 1 ) and likewise vertically (7.4.3.2.1).
 func hevcCroppedSize(s *hevc.SPS) (uint32, uint32) {
-	sw, sh := hevcSubWH(s.ChromaFormatIDC, s.SeparateColourPlaneFlag)
+	sw, sh := esgen.HEVCSubWH(s.ChromaFormatIDC, s.SeparateColourPlaneFlag)
 	w := s.PicWidthInLumaSamples - sw*(s.ConformanceWindow.LeftOffset+s.ConformanceWindow.RightOffset)
 	h := s.PicHeightInLumaSamples - sh*(s.ConformanceWindow.TopOffset+s.ConformanceWindow.BottomOffset)
 	return w, h
@@ -117,7 +141,7 @@ func hevcCheckSPS(c hevcSPSCase) *harness.Fail {
 
 // hevcRelaxFor decides the RelaxInterRPS flag for a set of SPS trees and counts the exclusion.
 func hevcRelaxFor(trees ...*nalgen.HEVCSPSTree) bool {
-	if !hevcAvoid("hevc-strps-interpred-not-derived") {
+	if !esgen.HEVCAvoid("hevc-strps-interpred-not-derived") {
 		return false
 	}
 	for _, tr := range trees {
@@ -133,11 +157,11 @@ func hevcRelaxFor(trees ...*nalgen.HEVCSPSTree) bool {
 
 func TestHEVCSPS(t *testing.T) {
 	harness.RunRapid(t, "sps", func(rt *rapid.T) {
-		tr := hevcGenSPS(rt, hevcSPSOpts{ID: -1, Log2Poc: -1, SAO: -1}, "")
+		tr := esgen.HEVCGenSPS(rt, esgen.HEVCSPSOpts{ID: -1, Log2Poc: -1, SAO: -1}, "")
 		c := hevcSPSCase{Tree: *tr, RelaxInterRPS: hevcRelaxFor(tr)}
-		classes := hevcSPSClasses(tr)
+		classes := esgen.HEVCSPSClasses(tr)
 		raw, _ := json.Marshal(c)
-		harness.Rec.Case(hevcNontrivial(classes, "hevc-sps-chroma-", "hevc-sps-num-strps-0"), raw, classes...)
+		harness.Rec.Case(esgen.HEVCNontrivial(classes, "hevc-sps-chroma-", "hevc-sps-num-strps-0"), raw, classes...)
 		if harness.Rec.WantSample() {
 			nal, _ := nalgen.HEVCWriteSPS(tr)
 			c.Hex = fmt.Sprintf("%x", nal)
